@@ -158,6 +158,20 @@ func (r *InboundRequestSingleFlight) FinishErr(req *InflightRequest, err error) 
 	close(req.Done)
 }
 
+// Abandon is deferred by the leader: if it leaves without FinishOk / FinishErr (a panic unwinding through the
+// resolver) the key is freed and Done closed with neither Data nor Err, so followers execute on their own.
+func (r *InboundRequestSingleFlight) Abandon(req *InflightRequest) {
+	if req == nil {
+		return
+	}
+	select {
+	case <-req.Done: // FinishOk / FinishErr ran
+	default:
+		r.shardFor(req.ID).m.Delete(req.ID)
+		close(req.Done)
+	}
+}
+
 func (r *InboundRequestSingleFlight) shardFor(key uint64) *requestShard {
 	// Fast modulo using power-of-two shard count if desired in the future.
 	// For now, use standard modulo for clarity.
